@@ -1,15 +1,24 @@
 """C05 — numbers set through the API are written without loss.
 
-Obligations: coq/Properties/C05.v over coq/Model/Num.v (ValueNode.format and everything it calls,
-CPython's %d/%e/%f/%g conversions and math.isclose in exact integer arithmetic).
-Correspondence: ValueNode(token, type, padding) [+ _convert_to_int]; .value = v; .format()  versus the
-extracted Num model, byte for byte (exception class when it raises), on generated
-(token format x padding x new value) cases; values cross as (sign, mantissa, exponent), never decimal.
-Also: fortran_float(token) vs the model's correctly rounded float(), and spec.read_number vs the model's reader.
+Obligations: coq/Properties/C05.v over coq/Model/Num.v (ValueNode.format and everything it calls: the
+precision loop with _reads_back_as / _format_float and the ".17g" fall-back, int(round()), exact integer
+comparison; CPython's %d/%e/%f/%g conversions, float(str), round() and math.isclose in exact integer
+arithmetic).
+Correspondence: ValueNode(token, type, padding) [+ _convert_to_int / is_negatable_float /
+is_negatable_identifier]; .value = v; .format()  versus the extracted Num model, byte for byte (exception
+class when it raises), on generated (token format x padding x new value) cases; values cross as
+(sign, mantissa, exponent), never as decimal text.  Also: fortran_float(token) vs the model's correctly
+rounded float(), spec.read_number vs the model's reader, math.isclose vs the model's isclose on pairs at the
+tolerance boundary, round() vs the model's round, _value_changed vs the model's.
 Oracle (search): the text the real format() produced is re-read by spec.read_number (independent reader)
 and compared with the value that was set: floats with math.isclose(rel_tol=1e-9), integers exactly and
 spelled as integers, an unchanged value keeps its spelling, the number is followed by a blank when the
 node had a blank after it, format() does not raise for a finite value.
+Carriers: real problems (surface constants, densities, material fractions, transform vectors, importances,
+volumes; cell parameters and data-block cards; objects made from scratch: a new cell, a transform given more
+rotation entries than its line had, a volume for a cell whose entry was a jump) edited through the public
+API, written with write_to_file and re-read by spec.py: every value that was set is found at its place
+within the tolerance, every value that was not set keeps its spelling.
 """
 import json
 import math
@@ -48,6 +57,11 @@ def float_parts(x):
     return neg, M, E
 
 
+def enc_float(x):
+    neg, M, E = float_parts(x)
+    return "f:%d:%d:%d" % (1 if neg else 0, M, E)
+
+
 def val_of(case):
     k, s = case["val"]
     return int(s) if k == "i" else float.fromhex(s)
@@ -57,13 +71,14 @@ def enc_val(case):
     k, s = case["val"]
     if k == "i":
         return "i:%d" % int(s)
-    neg, M, E = float_parts(float.fromhex(s))
-    return "f:%d:%d:%d" % (1 if neg else 0, M, E)
+    return enc_float(float.fromhex(s))
+
+
+def enc_tok(t):
+    return "n" if t is None else ("j" if t == "<J>" else "t:" + hx(t))
 
 
 def request_of(case):
-    t = case["tok"]
-    tk = "n" if t is None else ("j" if t == "<J>" else "t:" + hx(t))
     p = case["pad"]
     if p is None:
         pd = "n"
@@ -71,7 +86,8 @@ def request_of(case):
         pd = "-"
     else:
         pd = ",".join(k + hx(s) for k, s in p)
-    return "%s %s %s %d %s" % (case["kind"], tk, pd, 1 if case.get("never_pad") else 0, enc_val(case))
+    return "%s %s %s %d %s" % (case["kind"], enc_tok(case["tok"]), pd, 1 if case.get("never_pad") else 0,
+                               enc_val(case))
 
 
 # ---------------------------------------------------------------------------- the real code
@@ -88,24 +104,44 @@ def build_node(case):
                 pad.append(CommentNode(s))
             else:
                 pad._nodes.append(s)
+    neg = bool(case.get("negatable"))
     ty = int if case["kind"] == "i" else float
     n = ValueNode(tok, ty, pad, never_pad=bool(case.get("never_pad")))
-    if case["kind"] == "c":
+    if case["kind"] == "f":
+        if neg:
+            n.is_negatable_float = True          # cell density, material fraction
+    elif neg:
+        n.is_negatable_identifier = True         # transform / periodic surface pointer (converts to int)
+    elif case["kind"] == "c":
         n._convert_to_int()
     return n
 
 
+def set_value(n, case):
+    v = val_of(case)
+    if case.get("negatable"):
+        # a negatable node holds the magnitude and the sign separately
+        if isinstance(v, int):
+            n.value = abs(v)
+            n.is_negative = v < 0
+        else:
+            n.value = abs(v)
+            n.is_negative = math.copysign(1.0, v) < 0
+    else:
+        n.value = v
+
+
 def real_run(case):
-    """-> ('ok', text, parsed_value) | ('err', ExceptionClassName, None)"""
+    """-> ('ok', text, parsed_value, '') | ('err', ExceptionClassName, parsed_value, where)"""
     with warnings.catch_warnings():
         warnings.simplefilter("ignore")
         try:
             n = build_node(case)
         except Exception as e:
             return ("err", type(e).__name__, None, "ctor")
-        og = n.value
+        og = n._og_value
         try:
-            n.value = val_of(case)
+            set_value(n, case)
             return ("ok", n.format(), og, "")
         except Exception as e:
             return ("err", type(e).__name__, og, "format")
@@ -121,9 +157,9 @@ def tok_formats(rng):
     mag = rng.choice([rng.uniform(0.1, 10), rng.uniform(0.001, 1000), float(rng.randint(1, 999)),
                       rng.uniform(1e-8, 1e-2), rng.uniform(1e3, 1e12), 10 ** rng.uniform(-30, 30)])
     p = rng.randint(0, 7)
-    cls = rng.choice(["intlike", "fixed", "sci_e", "sci_E", "fortran", "plus", "minus", "lead0", "dot_end",
-                      "dot_start", "exp_pad", "sci_int", "minus_sci", "jump", "none", "zero", "long_fixed",
-                      "plus_sci"])
+    cls = rng.choice(["intlike", "intlike", "fixed", "fixed", "sci_e", "sci_E", "fortran", "plus", "minus", "lead0",
+                      "dot_end", "dot_start", "exp_pad", "sci_int", "minus_sci", "jump", "none", "zero",
+                      "long_fixed", "plus_sci"])
     if cls == "intlike":
         t = str(rng.choice([0, 1, 5, 12, 57, 100, 999, 123456, 10 ** 9, rng.randint(1, 10 ** 7)]))
     elif cls == "fixed":
@@ -238,14 +274,24 @@ def parse_tok_float(t):
         return None
 
 
-def gen_value(rng, og, kind):
+def parse_tok_int(t):
+    if t is None or t == "<J>":
+        return None
+    m = re.fullmatch(r"([+-]?\d+)(\.0*)?", t)
+    return int(m.group(1)) if m else None
+
+
+def gen_value(rng, og, kind, tok=None):
     """(class name, python value)"""
     if kind in ("i", "c"):
         cls = rng.choice(["same", "int_small", "int_small", "int_neg", "int_big", "int_near", "zero", "int_digits",
-                          "float_on_int"])
-        ogi = int(og) if og is not None else rng.randint(1, 1000)
+                          "float_on_int", "float_of_token"])
+        ti = parse_tok_int(tok)
+        ogi = ti if ti is not None else (int(og) if og is not None else rng.randint(1, 1000))
         if cls == "same":
             v = ogi
+        elif cls == "float_of_token":
+            v = int(og) if og is not None else ogi       # the integer Python's float(token) denotes
         elif cls == "int_small":
             v = rng.randint(1, 99999)
         elif cls == "int_neg":
@@ -264,7 +310,8 @@ def gen_value(rng, og, kind):
     base = og if og not in (None, 0.0) else rng.uniform(0.5, 50)
     cls = rng.choice(["same", "more_digits", "more_digits", "fewer_digits", "magnitude", "magnitude", "tiny_huge",
                       "negated", "zero", "neg_zero", "integral", "ulp_int", "near_same", "int_value", "subnormal",
-                      "near_int", "neg_more_digits", "half_way", "scaled"])
+                      "near_int", "neg_more_digits", "half_way", "scaled", "int_abs_off", "tol_edge", "full_digits",
+                      "tiny_on_fixed", "near_int_edge"])
     if cls == "same":
         v = og if og is not None else 1.0
     elif cls == "more_digits":
@@ -296,10 +343,26 @@ def gen_value(rng, og, kind):
     elif cls == "near_int":
         n = float(rng.randint(1, 10 ** 6))
         v = n * (1 + rng.choice([-1, 1]) * 10.0 ** rng.uniform(-12, -7))
+    elif cls == "near_int_edge":
+        # an integer-looking value just inside / just outside the relative tolerance
+        n = float(rng.choice([1, 2, 5, 58, 1000, rng.randint(1, 10 ** 6)]))
+        v = n * (1 + rng.choice([-1, 1]) * 1e-9 * rng.choice([0.5, 0.9, 0.999, 1.001, 1.1, 2.0, 10.0]))
+    elif cls == "int_abs_off":
+        # a small integer plus an absolute offset between 1e-9 and 1e-4: far outside the relative tolerance
+        n = float(rng.choice([0, 1, 2, 5, 12, 57, 100, rng.randint(1, 2000)]))
+        v = n + rng.choice([-1, 1]) * 10.0 ** rng.uniform(-9, -4)
     elif cls == "near_same":
         v = base * (1 + rng.choice([-1, 1]) * 10.0 ** rng.uniform(-11, -7.5))
         if rng.random() < 0.3:
             v = math.nextafter(base, rng.choice([0.0, math.inf]))
+    elif cls == "tol_edge":
+        # the old value moved by almost exactly the tolerance
+        v = base * (1 + rng.choice([-1, 1]) * 1e-9 * rng.choice([0.99, 0.999999, 1.0, 1.000001, 1.01]))
+    elif cls == "full_digits":
+        v = rng.choice([0.1 + 0.2, 1 / 3, 2 / 3, math.pi, math.e * 1e-5, 1e23, 9007199254740993.0,
+                        rng.random(), rng.random() * 10.0 ** rng.randint(-20, 20), 0.8358073613682703])
+    elif cls == "tiny_on_fixed":
+        v = rng.choice([1.234e-12, 1.23456789e-13, 5e-18, -3.3e-15, 1.7e-9, rng.random() * 1e-14])
     elif cls == "int_value":
         v = rng.choice([0, 1, 3, -4, 10, 12345, 10 ** 6, 10 ** 15, 2 ** 53 + 1, 10 ** 400])
     elif cls == "half_way":
@@ -318,10 +381,12 @@ def gen_case(rng):
     else:
         tcls, tok = conv_token(rng)
     og = parse_tok_float(tok)
-    vcls, v = gen_value(rng, og, kind)
+    vcls, v = gen_value(rng, og, kind, tok)
     case = {"kind": kind, "tok": tok, "pad": gen_pad(rng), "never_pad": rng.random() < 0.05,
             "val": ["i", str(v)] if isinstance(v, int) else ["f", float(v).hex()],
             "tcls": tcls, "vcls": vcls}
+    if rng.random() < 0.15 and not (kind in ("i", "c") and not isinstance(v, int)):
+        case["negatable"] = True
     return case
 
 
@@ -335,6 +400,15 @@ def number_text(out):
     if not m:
         return None, 0
     return m.group(0), m.end()
+
+
+def close_to(got, v):
+    """got: Fraction read from the text; v: the python value that was set"""
+    try:
+        gf = float(got)
+    except OverflowError:
+        return False
+    return math.isclose(gf, float(v), rel_tol=REL_TOL, abs_tol=0.0)
 
 
 def check_case(case, r=None):
@@ -356,8 +430,12 @@ def check_case(case, r=None):
         return {"kind": "no-number-written", "out": out}
     pad_text = "".join(s for _, s in (case["pad"] or []))
     # an unchanged value keeps its original spelling
-    if og is not None and type(og) == type(v) and og == v and case["tok"] not in (None, "<J>"):
-        if out != case["tok"] + pad_text:
+    tok_int = parse_tok_int(case["tok"])
+    same = (is_int_node and tok_int is not None and tok_int == v) or \
+           (not is_int_node and og is not None and type(og) == type(v) and og == v)
+    if same and case["tok"] not in (None, "<J>"):
+        # the number keeps its spelling (the blanks after it are layout, not part of the number)
+        if txt != case["tok"]:
             return {"kind": "unchanged-respelled", "out": out}
         return None
     got = spec.read_number(txt)
@@ -366,16 +444,11 @@ def check_case(case, r=None):
     if is_int_node:
         if not re.fullmatch(r"[+-]?\d+", txt) or got != v:
             return {"kind": "int-not-exact", "out": out, "text": txt}
-    else:
-        try:
-            gf = float(got)
-        except OverflowError:
-            return {"kind": "not-close", "out": out, "text": txt}
-        if not math.isclose(gf, float(v), rel_tol=REL_TOL, abs_tol=0.0):
-            return {"kind": "not-close", "out": out, "text": txt}
+    elif not close_to(got, v):
+        return {"kind": "not-close", "out": out, "text": txt}
     # no fusion: a node that had a blank after it still ends its number with a blank / newline
     p = case["pad"]
-    had_blank = (p and p[0][0] == "s" and p[0][1].strip() == "" and p[0][1] != "\n") or \
+    had_blank = (p and p[0][0] == "s" and p[0][1].strip() == "" and p[0][1] not in ("", "\n")) or \
                 (p is None and case["tok"] in (None, "<J>") and not case.get("never_pad"))
     if had_blank and not (end < len(out) and out[end] in " \t\n"):
         return {"kind": "fused", "out": out}
@@ -384,6 +457,12 @@ def check_case(case, r=None):
 
 def shrink(case, failing):
     cur = dict(case)
+    for drop in ("negatable",):
+        if cur.get(drop):
+            c = dict(cur)
+            c.pop(drop)
+            if failing(c):
+                cur = c
     for cand_pad in (None, [["s", " "]]):
         c = dict(cur, pad=cand_pad, never_pad=False)
         if failing(c):
@@ -418,19 +497,367 @@ def branch_of(case, r):
     return "fixed-text"
 
 
+def digits_class(case, r):
+    """how many digits format() added to the old token's precision (measured on the real node)"""
+    if case["kind"] != "f" or r[0] != "ok":
+        return None
+    try:
+        with warnings.catch_warnings():
+            warnings.simplefilter("ignore")
+            n = build_node(case)
+            set_value(n, case)
+            if not n._value_changed or n.value is None:
+                return "unchanged"
+            n._reverse_engineer_formatting()
+            if n._can_float_to_int_happen():
+                return "as-integer"
+            v = n._print_value
+            p0 = p = n._formatter["precision"]
+            t = n._format_float(v, p)
+            while p < 17 and not n._reads_back_as(t, v):
+                p += 1
+                t = n._format_float(v, p)
+            if not n._reads_back_as(t, v):
+                return "fallback-17g"
+            return "+%d" % (p - p0) if p - p0 < 6 else "+6..12"
+    except Exception:
+        return "error"
+
+
 def load_json_case(path):
     with open(path) as fh:
         c = json.load(fh)
     return c.get("case", c)
 
 
+# ---------------------------------------------------------------------------- carriers
+SPELL = ["{:.1f}", "{:.3f}", "{:.0f}", "{:.2e}", "{:.1E}", "{:.4e}", "{:g}", "+{:.2f}", "{:.0f}.", "{:06.2f}", "FORTRAN"]
+
+
+def spell(rng, x, allow_sign=True):
+    """a token for the magnitude x in a random spelling; returns the text (its value may be rounded)"""
+    f = rng.choice(SPELL)
+    if f == "FORTRAN":
+        return ("%.2e" % x).replace("e", "")
+    if f.startswith("+") and not allow_sign:
+        f = f[1:]
+    t = f.format(x)
+    if spec.read_number(t) == 0:
+        t = "%.4g" % x                  # a zero density / fraction is not a valid input
+    return t
+
+
+def new_value(rng, tok_val):
+    cls = rng.choice(["digits", "digits", "scale", "tiny", "huge", "third", "round", "near_int", "full"])
+    b = abs(tok_val) if tok_val else 1.0
+    if cls == "digits":
+        return b * rng.uniform(0.5, 2.0)
+    if cls == "scale":
+        return b * 10.0 ** rng.randint(-8, 8)
+    if cls == "tiny":
+        return rng.uniform(1, 10) * 10.0 ** rng.randint(-14, -6)
+    if cls == "huge":
+        return rng.uniform(1, 10) * 10.0 ** rng.randint(6, 14)
+    if cls == "third":
+        return rng.choice([1 / 3, 2 / 3, 1 / 7, math.pi, 0.8358073613682703])
+    if cls == "round":
+        return float(rng.choice([1, 2, 5, 10, 250]))
+    if cls == "near_int":
+        return rng.randint(1, 500) + rng.choice([-1, 1]) * 10.0 ** rng.uniform(-8, -4)
+    return rng.random() * 10.0 ** rng.randint(-3, 3)
+
+
+def gen_carrier(rng):
+    """A small problem text with the numeric tokens spelled at random + a list of API edits.
+    slots: name -> (token text or None); ops: list of [op, target, values]"""
+    layout = rng.choice(["params", "data"])            # importances / volumes as cell parameters or data cards
+    dens1 = spell(rng, rng.uniform(0.5, 20), False)
+    dens3 = spell(rng, rng.uniform(1e-3, 0.1), False)
+    imp = [rng.choice(["1", "2", "1.0", "0.5", "2.50"]) for _ in range(3)]
+    vol = [spell(rng, rng.uniform(0.5, 500), False) for _ in range(3)]
+    jump_vol = layout == "data" and rng.random() < 0.5
+    if jump_vol:
+        vol[1] = "J"
+    sc = {1: [spell(rng, rng.uniform(0.1, 10))],
+          2: [rng.choice(["-", ""]) + spell(rng, rng.uniform(0.1, 10), False)],
+          3: [spell(rng, rng.uniform(1, 50), False)],
+          4: [spell(rng, rng.uniform(0.1, 5)), spell(rng, rng.uniform(0.1, 5)), spell(rng, rng.uniform(1, 9), False)],
+          5: [spell(rng, rng.uniform(1, 9), False)],
+          6: [rng.choice(["-", ""]) + spell(rng, rng.uniform(0.1, 9), False) for _ in range(10)],
+          7: [spell(rng, rng.uniform(0.1, 10))]}
+    fr1 = [spell(rng, rng.uniform(0.1, 0.9), False), spell(rng, rng.uniform(0.1, 0.9), False)]
+    fr2 = ["-" + spell(rng, rng.uniform(0.1, 0.9), False), "-" + spell(rng, rng.uniform(0.1, 0.9), False)]
+    ntr = rng.choice([3, 3, 12, 9, 5])
+    tr1 = [spell(rng, rng.uniform(0.5, 9)) for _ in range(3)]
+    rot = ["1", "0", "0", "0", "1", "0", "0", "0", "1"]
+    if ntr > 3:
+        tr1 += rot[:ntr - 3]
+    tr2 = [spell(rng, rng.uniform(0.5, 9)) for _ in range(3)] + ["30", "60", "90", "120", "30", "90", "90", "90", "0"]
+    c1 = "1 1 -%s -1 2" % dens1
+    c2 = "2 0 1:-2 3"
+    c3 = "3 2 %s -3 4" % dens3
+    if layout == "params":
+        c1 += " imp:n=%s vol=%s" % (imp[0], vol[0])
+        c2 += " imp:n=%s vol=%s" % (imp[1], vol[1])
+        c3 += " imp:n=%s vol=%s" % (imp[2], vol[2])
+    lines = ["C05 carrier", c1, c2, c3, "",
+             "1 px " + sc[1][0], "2 pz " + sc[2][0], "3 so " + sc[3][0], "4 c/z " + " ".join(sc[4]),
+             "5 cz " + sc[5][0], "6 gq " + " ".join(sc[6][:5]), "     " + " ".join(sc[6][5:]),
+             "7 1 py " + sc[7][0], "",
+             "m1 1001.80c %s 8016.80c %s" % tuple(fr1), "m2 92235.80c %s 92238.80c %s" % tuple(fr2),
+             "tr1 " + " ".join(tr1), "*tr2 " + " ".join(tr2)]
+    if layout == "data":
+        lines.append("imp:n " + " ".join(imp))
+        lines.append("vol " + " ".join(vol))
+    text = "\n".join(lines) + "\n"
+    slots = {"dens1": "-" + dens1, "dens3": dens3, "imp": imp, "vol": vol, "sc": sc, "fr1": fr1, "fr2": fr2,
+             "tr1": tr1, "tr2": tr2}
+    ops = []
+    def tv(t):
+        f = spec.read_number(t.upper()) if t not in ("J",) else None
+        return float(f) if f is not None else None
+    for _ in range(rng.randint(2, 7)):
+        op = rng.choice(["loc", "loc", "radius", "coords", "consts", "mass", "atom", "frac", "disp", "rot", "rot_longer",
+                         "imp", "vol", "newcell"])
+        if op == "loc":
+            sn = rng.choice([1, 2, 7])
+            v = new_value(rng, tv(sc[sn][0])) * rng.choice([1, 1, -1])
+            ops.append(["loc", sn, [v]])
+        elif op == "radius":
+            sn = rng.choice([4, 5])
+            ops.append(["radius", sn, [new_value(rng, tv(sc[sn][-1]))]])
+        elif op == "coords":
+            ops.append(["coords", 4, [new_value(rng, 1.0) * rng.choice([1, -1]), new_value(rng, 2.0)]])
+        elif op == "consts":
+            sn = rng.choice([3, 6])
+            cur = [tv(t) for t in sc[sn]]
+            k = rng.randrange(len(cur))
+            new = list(cur)
+            new[k] = new_value(rng, cur[k]) * (rng.choice([1, -1]) if sn == 6 else 1)
+            ops.append(["consts", sn, new, k])
+        elif op == "mass":
+            ops.append(["mass", rng.choice([1, 3]), [new_value(rng, 2.0)]])
+        elif op == "atom":
+            ops.append(["atom", rng.choice([1, 3]), [new_value(rng, 0.05)]])
+        elif op == "frac":
+            ops.append(["frac", rng.choice([1, 2]), rng.randrange(2), [new_value(rng, 0.5)]])
+        elif op == "disp":
+            tn = rng.choice([1, 2])
+            ops.append(["disp", tn, [new_value(rng, 1.0) * rng.choice([1, -1]) for _ in range(3)]])
+        elif op == "rot":
+            th = rng.uniform(0, 3)
+            ops.append(["rot", 2, [math.degrees(th), 90 - math.degrees(th), 90.0, 90 + math.degrees(th), math.degrees(th), 90.0, 90.0, 90.0, 0.0]])
+        elif op == "rot_longer":
+            th = rng.uniform(0.01, 3)
+            ops.append(["rot", 1, [math.cos(th), -math.sin(th), 0.0, math.sin(th), math.cos(th), 0.0, 0.0, 0.0, 1.0]])
+        elif op == "imp":
+            ops.append(["imp", rng.choice([1, 2, 3]), [rng.choice([0.0, 1.0, 2.0, new_value(rng, 1.0)])]])
+        elif op == "vol":
+            ops.append(["vol", rng.choice([1, 2, 3]), [new_value(rng, 10.0)]])
+        else:
+            ops.append(["newcell", 10 + len(ops), [new_value(rng, 2.0), new_value(rng, 1.0), new_value(rng, 10.0)]])
+    return {"text": text, "layout": layout, "slots": slots, "ops": ops, "ntr": ntr, "jump_vol": jump_vol}
+
+
+def run_carrier(car):
+    """apply the edits through the public API, write, return (written text, expectations)
+    expectations: list of (where, key, position, 'set' value | 'kept' token)"""
+    import numpy as np
+    import montepy
+    import mp
+    from montepy.data_inputs.transform import Transform
+    pr = mp.read_problem(car["text"], name="c05_in.i")
+    sl = car["slots"]
+    exp = {}            # (card kind, card id, position) -> ("set", v) | ("kept", token)
+    for sn, toks in sl["sc"].items():
+        for i, t in enumerate(toks):
+            exp[("surf", sn, i)] = ("kept", t)
+    exp[("dens", 1, 0)] = ("kept", sl["dens1"])
+    exp[("dens", 3, 0)] = ("kept", sl["dens3"])
+    for i in range(3):
+        exp[("imp", i + 1, 0)] = ("kept", sl["imp"][i])
+        exp[("vol", i + 1, 0)] = ("kept", sl["vol"][i])
+    for i in range(2):
+        exp[("frac", 1, i)] = ("kept", sl["fr1"][i])
+        exp[("frac", 2, i)] = ("kept", sl["fr2"][i])
+    for i, t in enumerate(sl["tr1"]):
+        exp[("tr", 1, i)] = ("kept", t)
+    for i, t in enumerate(sl["tr2"]):
+        exp[("tr", 2, i)] = ("kept", t)
+    trs = {d.number: d for d in pr.data_inputs if isinstance(d, Transform)}
+    with warnings.catch_warnings():
+        warnings.simplefilter("ignore")
+        for op in car["ops"]:
+            k = op[0]
+            if k == "loc":
+                pr.surfaces[op[1]].location = op[2][0]
+                exp[("surf", op[1], 0)] = ("set", op[2][0])
+            elif k == "radius":
+                pr.surfaces[op[1]].radius = op[2][0]
+                exp[("surf", op[1], len(sl["sc"][op[1]]) - 1)] = ("set", op[2][0])
+            elif k == "coords":
+                pr.surfaces[4].coordinates = tuple(op[2])
+                exp[("surf", 4, 0)] = ("set", op[2][0])
+                exp[("surf", 4, 1)] = ("set", op[2][1])
+            elif k == "consts":
+                pr.surfaces[op[1]].surface_constants = list(op[2])
+                for j, v in enumerate(op[2]):
+                    how, old = exp[("surf", op[1], j)]
+                    if how == "kept" and float(spec.read_number(old.upper())) == v:
+                        continue                        # assigned the value the token already has
+                    exp[("surf", op[1], j)] = ("set", v)
+            elif k == "mass":
+                pr.cells[op[1]].mass_density = op[2][0]
+                exp[("dens", op[1], 0)] = ("set", -op[2][0])
+            elif k == "atom":
+                pr.cells[op[1]].atom_density = op[2][0]
+                exp[("dens", op[1], 0)] = ("set", op[2][0])
+            elif k == "frac":
+                m = pr.materials[op[1]]
+                comp = list(m.material_components.values())[op[2]]
+                comp.fraction = op[3][0]
+                exp[("frac", op[1], op[2])] = ("set", op[3][0] if op[1] == 1 else -op[3][0])
+            elif k == "disp":
+                trs[op[1]].displacement_vector = np.array(op[2])
+                for i, v in enumerate(op[2]):
+                    exp[("tr", op[1], i)] = ("set", v)
+            elif k == "rot":
+                trs[op[1]].rotation_matrix = np.array(op[2])
+                for i, v in enumerate(op[2]):
+                    exp[("tr", op[1], 3 + i)] = ("set", v)
+            elif k == "imp":
+                pr.cells[op[1]].importance.neutron = op[2][0]
+                exp[("imp", op[1], 0)] = ("set", op[2][0])
+            elif k == "vol":
+                pr.cells[op[1]].volume = op[2][0]
+                exp[("vol", op[1], 0)] = ("set", op[2][0])
+            elif k == "newcell":
+                c = montepy.Cell()
+                c.number = op[1]
+                c.geometry = -pr.surfaces[3] & +pr.surfaces[5]
+                c.material = pr.materials[1]
+                c.mass_density = op[2][0]
+                c.importance.neutron = op[2][1]
+                c.volume = op[2][2]
+                pr.cells.append(c)
+                exp[("dens", op[1], 0)] = ("set", -op[2][0])
+                exp[("imp", op[1], 0)] = ("set", op[2][1])
+                exp[("vol", op[1], 0)] = ("set", op[2][2])
+        out = mp.write_problem(pr, name="c05_out.i")
+    return out, exp
+
+
+def read_carrier(out):
+    """the written file through spec.py: {(kind, id, position): token text}"""
+    f = spec.split_file(out)
+    got = {}
+    cells, surfs, data = (f["blocks"] + [[], [], []])[:3]
+    order = []
+    for card in cells:
+        toks = spec.tokens(card.text)
+        num = int(toks[0])
+        order.append(num)
+        if toks[1] != "0":
+            got[("dens", num, 0)] = toks[2]
+        c = spec.parse_cell(card)
+        for key, vals in c["params"].items():
+            if key.startswith("IMP:") and vals:
+                got[("imp", num, 0)] = vals[0]
+            if key == "VOL" and vals:
+                got[("vol", num, 0)] = vals[0]
+    for card in surfs:
+        toks = spec.tokens(card.text)
+        num = int(toks[0].lstrip("*+"))
+        i = 1
+        if re.fullmatch(r"[+-]?\d+", toks[1]):
+            i = 2
+        for j, t in enumerate(toks[i + 1:]):
+            got[("surf", num, j)] = t
+    for card in data:
+        toks = spec.tokens(card.text)
+        head = toks[0]
+        m = re.fullmatch(r"M(\d+)", head)
+        if m:
+            for j in range((len(toks) - 1) // 2):
+                got[("frac", int(m.group(1)), j)] = toks[2 + 2 * j]
+            continue
+        m = re.fullmatch(r"\*?TR(\d+)", head)
+        if m:
+            for j, t in enumerate(toks[1:]):
+                got[("tr", int(m.group(1)), j)] = t
+            continue
+        if head.startswith("IMP:"):
+            vals = spec.expand_shortcuts(toks[1:])
+            raw = toks[1:]
+            for j, num in enumerate(order):
+                if j < len(vals):
+                    got[("imp", num, 0)] = raw[j] if len(raw) == len(vals) else vals[j]
+            continue
+        if head == "VOL":
+            vals = spec.expand_shortcuts(toks[1:])
+            raw = toks[1:]
+            for j, num in enumerate(order):
+                if j < len(vals):
+                    got[("vol", num, 0)] = raw[j] if len(raw) == len(vals) else vals[j]
+    return got
+
+
+def check_carrier(car):
+    """-> None | failure dict (first failing slot)"""
+    try:
+        out, exp = run_carrier(car)
+    except Exception as e:
+        return {"kind": "carrier-exception", "exc": type(e).__name__, "msg": str(e)[:200]}
+    try:
+        got = read_carrier(out)
+    except Exception as e:
+        return {"kind": "carrier-unreadable", "exc": type(e).__name__, "out": out}
+    for key, (how, want) in sorted(exp.items(), key=lambda kv: str(kv[0])):
+        g = got.get(key)
+        if how == "kept":
+            if want == "J":
+                continue                            # a jump that stays a jump: C07's business
+            if g is None or str(g).upper() != want.upper():
+                # a kept token may have been moved by a longer neighbour but must be spelled the same
+                return {"kind": "carrier-kept-respelled", "slot": list(key), "want": want, "got": str(g), "out": out}
+        else:
+            if g is None:
+                return {"kind": "carrier-missing", "slot": list(key), "want": repr(want), "out": out}
+            val = g if isinstance(g, Fraction) else spec.read_number(str(g))
+            if val is None or not close_to(val, want):
+                return {"kind": "carrier-not-close", "slot": list(key), "want": repr(want), "got": str(g), "out": out}
+    return None
+
+
+def shrink_carrier(car, kind):
+    cur = car
+    changed = True
+    while changed and len(cur["ops"]) > 1:
+        changed = False
+        for i in range(len(cur["ops"])):
+            c = dict(cur, ops=cur["ops"][:i] + cur["ops"][i + 1:])
+            f = check_carrier(c)
+            if f is not None and f["kind"] == kind:
+                cur = c
+                changed = True
+                break
+    return cur
+
+
+# ---------------------------------------------------------------------------- replay
 def replay(ctx, path):
-    c = load_json_case(path)
-    bad = check_case(c) is not None
-    if not bad:
-        ok, _ = vlib.coq_make(["Model/Num.vo"])
-        ans = vlib.model_ask("Num", [request_of(c)])[0]
-        bad = ans != real_answer(real_run(c)) and ans != "unmodelled"
+    import montepy
+    with open(path) as fh:
+        doc = json.load(fh)
+    if "carrier" in doc:
+        bad = check_carrier(doc["carrier"]) is not None
+    else:
+        c = doc.get("case", doc)
+        bad = check_case(c) is not None
+        if not bad:
+            ok, _ = vlib.coq_make(["Model/Num.vo"])
+            ans = vlib.model_ask("Num", [request_of(c)])[0]
+            bad = ans != real_answer(real_run(c)) and ans != "unmodelled"
     if bad:
         print("REPLAY property=C05 still fails")
         print(f"VIOLATION property=C05 replay={path}")
@@ -439,22 +866,123 @@ def replay(ctx, path):
     return 0
 
 
+# ---------------------------------------------------------------------------- run
+def aux_checks(ctx, cases, dist):
+    """float(), the reader, isclose, round, _value_changed: the model's building blocks against the real ones"""
+    from montepy.utilities import fortran_float
+    from montepy.constants import rel_tol, abs_tol
+    reqs, exps = [], []
+    seen = set()
+    for c in cases:
+        t = c["tok"]
+        if t in (None, "<J>") or t in seen:
+            continue
+        seen.add(t)
+        try:
+            x = fortran_float(t)
+            e = "unmodelled" if math.isinf(x) else ("%d %d %d" % ((1 if float_parts(x)[0] else 0,) + float_parts(x)[1:]))
+        except ValueError:
+            e = "err:ValueError"
+        reqs.append("float " + hx(t))
+        exps.append(("float", e))
+        reqs.append("read " + hx(t))
+        exps.append(("read", spec.read_number(t)))
+    # isclose at and around the tolerance, round() on halves and near integers
+    rng = random.Random(f"{ctx.seed}:C05:aux")
+    n_pairs = 400 if ctx.tier == "quick" else 20000
+    for i in range(n_pairs):
+        a = rng.choice([rng.uniform(-100, 100), 10.0 ** rng.uniform(-300, 300), float(rng.randint(1, 10 ** 6)), 5e-324 * rng.randint(1, 100)])
+        k = rng.choice(["edge", "edge", "ulp", "far", "same", "zero"])
+        if k == "edge":
+            b = a * (1 + rng.choice([-1, 1]) * 1e-9 * (1 + rng.choice([-1, 1]) * 2.0 ** -rng.randint(20, 53)))
+        elif k == "ulp":
+            b = math.nextafter(a * (1 + 1e-9), rng.choice([0.0, math.inf]))
+        elif k == "far":
+            b = a * rng.uniform(0.5, 2)
+        elif k == "same":
+            b = a
+        else:
+            b = 0.0
+        if math.isinf(b) or math.isinf(a):
+            continue
+        reqs.append("isclose %s %s" % (enc_float(a), enc_float(b)))
+        exps.append(("isclose", "1" if math.isclose(a, b, rel_tol=rel_tol, abs_tol=abs_tol) else "0"))
+        y = rng.choice([a, float(rng.randint(-50, 50)) + 0.5, math.nextafter(float(rng.randint(1, 99)) + 0.5, 0.0), b])
+        if abs(y) < 1e300:
+            reqs.append("round " + enc_float(y))
+            exps.append(("round", str(round(y))))
+    # _value_changed on (kind, token, value)
+    for c in cases[: (300 if ctx.tier == "quick" else 5000)]:
+        if c.get("negatable") or c["tok"] in (None, "<J>"):
+            continue
+        with warnings.catch_warnings():
+            warnings.simplefilter("ignore")
+            try:
+                n = build_node(dict(c, pad=None))
+                n.value = val_of(c)
+                e = "1" if n._value_changed else "0"
+            except OverflowError:
+                e = "err:OverflowError"
+            except Exception:
+                continue
+        reqs.append("changed %s %s %s" % (c["kind"], enc_tok(c["tok"]), enc_val(c)))
+        exps.append(("changed", e))
+    answers = vlib.model_ask("Num", reqs)
+    bad = []
+    counts = {}
+    for q, a, (k, e) in zip(reqs, answers, exps):
+        ctx.cov["disagreements_checked"] += 1
+        counts[k] = counts.get(k, 0) + 1
+        if k == "float":
+            if e == "unmodelled" or a == "unmodelled" or a.startswith("err") or e.startswith("err"):
+                okk = (a == e)
+            else:
+                ng, M, E = a.split()
+                e1 = e.split()
+                okk = ng == e1[0] and Fraction(int(M)) * Fraction(2) ** int(E) == Fraction(int(e1[1])) * Fraction(2) ** int(e1[2])
+        elif k == "read":
+            if a == "none" or e is None:
+                okk = (a == "none") == (e is None)
+            else:
+                ng, M, K = a.split()
+                val = Fraction(int(M)) * Fraction(10) ** int(K)
+                okk = (-val if ng == "1" else val) == e
+        else:
+            okk = (a == e) or a == "unmodelled"
+        if not okk:
+            bad.append({"request": q, "model": a, "real": str(e)})
+    dist["aux_checks"] = counts
+    if bad:
+        ctx.broken_obligations.append({"obligation": "Num building blocks (float / read_number / isclose / round / "
+                                                     "value_changed) vs CPython and MontePy",
+                                       "detail": {"n": len(bad), "first": bad[0]}})
+
+
 def run(ctx):
-    n_cases = 4000 if ctx.tier == "quick" else 400000
+    import montepy          # before any warnings.catch_warnings block: importing it installs warning filters
+    n_cases = 3000 if ctx.tier == "quick" else 150000
+    n_carriers = 60 if ctx.tier == "quick" else 3000
     ctx.prove()
     ok, log = vlib.coq_make(["Model/Num.vo"])
     if not ok:
         ctx.broken_obligations.append({"obligation": "Model/Num.vo builds", "detail": log[-800:]})
         return ctx.finish(vlib.KERNEL_TB, [], "model did not build")
-    # ---- cases: corpus first, then the known findings' witnesses, then generated
+    # ---- cases: corpus first (minimised past failures and the witnesses of fixed findings), then generated
     cases = []
+    carriers = []
     cdir = os.path.join(vlib.VERIF, "corpus", "C05")
     if os.path.isdir(cdir):
         for f in sorted(os.listdir(cdir)):
-            c = load_json_case(os.path.join(cdir, f))
-            c["_corpus"] = f
-            cases.append(c)
-    n_corpus = len(cases)
+            with open(os.path.join(cdir, f)) as fh:
+                doc = json.load(fh)
+            if "carrier" in doc:
+                doc["carrier"]["_corpus"] = f
+                carriers.append(doc["carrier"])
+            else:
+                c = doc.get("case", doc)
+                c["_corpus"] = f
+                cases.append(c)
+    n_corpus = len(cases) + len(carriers)
     for i in range(n_cases):
         cases.append(gen_case(random.Random(f"{ctx.seed}:C05:{i}")))
     reqs = [request_of(c) for c in cases]
@@ -462,8 +990,8 @@ def run(ctx):
     nx, bad = vlib.vm_crosscheck("Num", reqs, answers, sample=40 if ctx.tier == "quick" else 400, seed=ctx.seed)
     if bad:
         ctx.broken_obligations.append({"obligation": "extraction cross-check Num", "detail": bad[:2]})
-    dist = {"kind": {}, "token_class": {}, "value_class": {}, "branch": {}, "padding": {}, "model_unmodelled": 0,
-            "oracle_failures": {}, "corpus": n_corpus}
+    dist = {"kind": {}, "token_class": {}, "value_class": {}, "branch": {}, "padding": {}, "digits_added": {},
+            "negatable": 0, "model_unmodelled": 0, "oracle_failures": {}, "corpus": n_corpus}
     corr_bad = []
     n_fail = 0
     for c, ans in zip(cases, answers):
@@ -476,7 +1004,14 @@ def run(ctx):
                          ("padding", "none" if c["pad"] is None else ("empty" if not c["pad"] else
                                      "+".join(k for k, _ in c["pad"])))):
             dist[key][val] = dist[key].get(val, 0) + 1
-        ctx.count_case((c["kind"], c["tok"], str(c["pad"]), c["val"]), nontrivial=(br != "unchanged"))
+        if c.get("negatable"):
+            dist["negatable"] += 1
+        if ctx.cov["programs"] % 4 == 0:
+            dc = digits_class(c, r)
+            if dc:
+                dist["digits_added"][dc] = dist["digits_added"].get(dc, 0) + 1
+        ctx.count_case((c["kind"], c["tok"], str(c["pad"]), c["val"], bool(c.get("negatable"))),
+                       nontrivial=(br != "unchanged"))
         ctx.cov["disagreements_checked"] += 1
         if ans == "unmodelled":
             dist["model_unmodelled"] += 1
@@ -497,57 +1032,45 @@ def run(ctx):
             ctx.sample({"kind": c["kind"], "token": c["tok"], "padding": c["pad"], "value": repr(val_of(c)),
                         "written": r[1], "model": ans})
     if corr_bad:
+        # a disagreement of the model and the code: look for a property failure near the disagreeing case
+        first = corr_bad[0]
         ctx.broken_obligations.append({"obligation": "correspondence Num.render vs ValueNode.format",
-                                       "detail": {"n": len(corr_bad), "first": corr_bad[0]}})
-    # ---- float() and the reader: model vs fortran_float / spec.read_number on the tokens and outputs
-    aux_reqs, aux_exp = [], []
-    from montepy.utilities import fortran_float
-    seen = set()
-    for c in cases:
-        t = c["tok"]
-        if t in (None, "<J>") or t in seen:
-            continue
-        seen.add(t)
-        try:
-            x = fortran_float(t)
-            if math.isinf(x):
-                e = "unmodelled"
-            else:
-                neg, M, E = float_parts(x)
-                e = ("%d %d %d" % (1 if neg else 0, M, E))
-        except ValueError:
-            e = "err:ValueError"
-        aux_reqs.append("float " + hx(t))
-        aux_exp.append(("float", e))
-        f = spec.read_number(t)
-        aux_reqs.append("read " + hx(t))
-        aux_exp.append(("read", f))
-    aux_ans = vlib.model_ask("Num", aux_reqs)
-    aux_bad = []
-    for q, a, (k, e) in zip(aux_reqs, aux_ans, aux_exp):
-        ctx.cov["disagreements_checked"] += 1
-        if k == "float":
-            if e == "unmodelled" or a == "unmodelled":
-                okk = (a == e)
-            elif a.startswith("err") or e.startswith("err"):
-                okk = (a == e)
-            else:
-                ng, M, E = a.split()
-                e1 = e.split()
-                okk = ng == e1[0] and Fraction(int(M)) * Fraction(2) ** int(E) == Fraction(int(e1[1])) * Fraction(2) ** int(e1[2])
-        else:
-            if a == "none" or e is None:
-                okk = (a == "none") == (e is None)
-            else:
-                ng, M, K = a.split()
-                val = Fraction(int(M)) * Fraction(10) ** int(K)
-                okk = (-val if ng == "1" else val) == e
-        if not okk:
-            aux_bad.append({"request": q, "token": unhx(q.split()[1]), "model": a, "real": str(e)})
-    dist["aux_float_read_checks"] = len(aux_reqs)
-    if aux_bad:
-        ctx.broken_obligations.append({"obligation": "Num.fortran_float / Num.read_number vs fortran_float / spec.read_number",
-                                       "detail": {"n": len(aux_bad), "first": aux_bad[0]}})
+                                       "detail": {"n": len(corr_bad), "first": first}})
+        for cb in corr_bad[:20]:
+            base = cb["case"]
+            for pad in (base["pad"], [["s", " "]], None):
+                for neg in (False, True):
+                    cc = dict(base, pad=pad)
+                    if neg:
+                        cc["negatable"] = True
+                    else:
+                        cc.pop("negatable", None)
+                    f = check_case(cc)
+                    if f is not None:
+                        ctx.fail({"kind": f["kind"], "case": cc, "detail": f})
+                        break
+    # ---- the model's building blocks
+    aux_checks(ctx, cases, dist)
+    # ---- carriers: real problems edited through the API, written, re-read by spec.py
+    cdist = {"n": 0, "ops": {}, "layout": {}, "failures": {}}
+    for i in range(n_carriers):
+        carriers.append(gen_carrier(random.Random(f"{ctx.seed}:C05:carrier:{i}")))
+    for car in carriers:
+        cdist["n"] += 1
+        cdist["layout"][car["layout"]] = cdist["layout"].get(car["layout"], 0) + 1
+        for op in car["ops"]:
+            cdist["ops"][op[0]] = cdist["ops"].get(op[0], 0) + 1
+        ctx.count_case(("carrier", car["text"], json.dumps(car["ops"])), nontrivial=True)
+        f = check_carrier(car)
+        if f is not None:
+            n_fail += 1
+            cdist["failures"][f["kind"]] = cdist["failures"].get(f["kind"], 0) + 1
+            small = shrink_carrier(car, f["kind"])
+            f2 = check_carrier(small) or f
+            ctx.fail({"kind": f2["kind"], "carrier": small, "detail": f2})
+            if len(ctx.violations) >= 5:
+                break
+    dist["carriers"] = cdist
     # ---- known findings: replay the committed witnesses
     for fd in ctx.findings:
         if fd.get("status") == "open" and fd.get("replay"):
@@ -559,22 +1082,26 @@ def run(ctx):
                 fd["_reproduced"] = False
     tb = vlib.KERNEL_TB + [
         "modelled, not verified: ValueNode.__init__/_convert_to_int/value setter/_reverse_engineer_formatting/"
-        "_reverse_engineer_float/_can_float_to_int_happen/_value_changed/format, PaddingNode.is_space, fortran_float, "
-        "and CPython 3.12 float(str), int(str), int(float), round(float), float(int), math.isclose, str.format "
-        "d/e/f/g with fill '0' align '=' as coq/Model/Num.v; NOT modelled: non-finite floats, negatable nodes, "
-        "enum/str nodes, LineExpansionWarning",
-        "spec.read_number (independent reader, harness/spec.py) is the oracle's reading of the written text; "
-        "it is compared with Num.read_number on every token",
+        "_reverse_engineer_float/_can_float_to_int_happen/_value_changed/_reads_back_as/_format_float/format, "
+        "PaddingNode.is_space, fortran_float, and CPython 3.12 float(str), int(str), round(float), float(int), "
+        "math.isclose, str.strip, str.format d/e/f/g with fill '0' align '=' as coq/Model/Num.v; a negatable node is "
+        "compared with the model of a plain node holding the signed value; NOT modelled: non-finite floats, "
+        "enum/str nodes, LineExpansionWarning, the objects that carry the nodes (checked by the carrier oracle only)",
+        "spec.read_number / spec.split_file / spec.parse_cell (independent reader, harness/spec.py) are the oracle's "
+        "reading of the written text; spec.read_number is compared with Num.read_number on every token",
         f"vm_compute cross-check of {nx} requests",
     ]
     assumptions = [
         "closeness is math.isclose(float(read text), value, rel_tol=1e-9, abs_tol=0): the text is read to the "
-        "nearest double, as MCNP stores it",
+        "nearest double, as MCNP stores it; the theorems state exactly this (reads_as / isclose)",
         "a float value given to an integer node, an int beyond the double range and a token MontePy cannot read "
         "are outside the property's domain (counted, not judged)",
+        "theorem C05_float_close needs the node to be followed by nothing or by a blank (followed_ok): a node "
+        "directly followed by a comment or a newline is judged by the oracle only",
     ]
     return ctx.finish(tb, assumptions,
-                      "cases = generated (token spelling class x padding shape x new-value class) triples; distinct = "
-                      "distinct (kind, token, padding, value); non-trivial = the value differs from the token's value "
+                      "cases = generated (token spelling class x padding shape x new-value class) triples plus carrier "
+                      "problems (spelled tokens x API edits); distinct = distinct (kind, token, padding, value, "
+                      "negatable) / (problem text, edits); non-trivial = the value differs from the token's value "
                       "(format() does not take the unchanged short cut)",
                       extra={"input_distribution": dist, "oracle_failing_cases": n_fail})
